@@ -462,7 +462,16 @@ class AsynchronousDeferredRunTest(_DeferredRunTest):
         user wrote it.
         """
         d = defer.maybeDeferred(function, *args, **kwargs)
-        return d.addErrback(self._got_user_failure)
+        d.addErrback(self._got_user_failure)
+        # Recording a failure runs user code too (addOnException handlers).  If
+        # that raises, the stage has still failed: don't let the next stage's
+        # addBoth swallow the failure and report the test as successful.
+        return d.addErrback(self._got_recorder_failure)
+
+    def _got_recorder_failure(self, failure):
+        """Recording a failure from user code itself failed."""
+        self._exceptions.append(failure.value)
+        return self.exception_caught
 
 
 class AsynchronousDeferredRunTestForBrokenTwisted(AsynchronousDeferredRunTest):
